@@ -595,7 +595,7 @@ func dbgGarbage(suspended []uint64) string {
 }
 
 func dbgRun(p *dbgPlan, prop string) {
-	parser.VerifResetGrammar()
+
 	src, sinks := dbgProgram(p)
 	plain := dbgExec(p, src, false, prop)
 	dbgd := dbgExec(p, src, true, prop)
